@@ -645,6 +645,23 @@ func sDirected() []SCase {
 	deep := T("object")
 	deep.Props = map[string]*GSchema{"l": {HasTypes: true, Types: []string{"array"}, Items: ob}}
 	add(deep, map[string]any{"l": []any{map[string]any{"a": "x"}, map[string]any{"a": 1.0}}}, map[string]any{"l": []any{map[string]any{"b": 1.5}}})
+	// the reading (request / response, with and without the read-only / write-only checks) reaches the
+	// schemas below not / allOf / oneOf / anyOf like everything else
+	{
+		ro := &GSchema{HasTypes: true, Types: []string{"string"}, ReadOnly: true}
+		wo := &GSchema{HasTypes: true, Types: []string{"string"}, WriteOnly: true}
+		inner := &GSchema{HasTypes: true, Types: []string{"object"}, Props: map[string]*GSchema{"id": ro, "pw": wo, "n": T("integer")}}
+		req := &GSchema{HasTypes: true, Types: []string{"object"}, Props: map[string]*GSchema{"id": ro, "pw": wo}, Required: []string{"id", "pw"}}
+		for _, g := range []*GSchema{{Not: inner}, {AllOf: []*GSchema{inner}}, {OneOf: []*GSchema{inner, T("string")}}, {AnyOf: []*GSchema{T("string"), inner}},
+			{Not: req}, {Not: &GSchema{Not: inner}}, {HasTypes: true, Types: []string{"array"}, Items: &GSchema{Not: inner}}} {
+			for mode := 0; mode <= 4; mode++ {
+				for _, v := range []any{map[string]any{"id": "x"}, map[string]any{"pw": "x"}, map[string]any{"n": 1.0}, map[string]any{}, map[string]any{"id": "x", "pw": "y"}, []any{map[string]any{"id": "x"}}, "s"} {
+					out = append(out, SCase{Schema: g, Value: v, Mode: mode})
+				}
+			}
+		}
+	}
+
 	return out
 }
 
